@@ -56,8 +56,22 @@ def make_server(spec, result):
             raw = json.dumps([{}, {"extensions": {}}, {"errors": []}][fault.get("v", 0) % 3]).encode()
         elif k == "errors":
             d = dict(good)
-            d["errors"] = [{"message": "introspection is disabled"}]
-            if fault.get("v", 0) % 2:
+            v = fault.get("v", 0)
+            # whatever a server puts under a non-empty "errors" is a reported failure; besides the spec shape, the shapes
+            # real gateways produce: a bare string, a list of strings, a single object, entries with partial locations
+            shapes = [[{"message": "introspection is disabled"}],
+                      [{"message": "introspection is disabled"}],
+                      "introspection is disabled",
+                      ["introspection is disabled", "try again"],
+                      {"message": "introspection is disabled"},
+                      [{"message": "m", "locations": [{"line": 3}], "path": None}],
+                      [{"message": "m", "locations": [{}]}, {"message": None}],
+                      [{}],
+                      [{"message": "", "extensions": {"code": "FORBIDDEN"}}],
+                      [None],
+                      [{"message": "x" * 2000, "locations": "nowhere"}]]
+            d["errors"] = shapes[v % len(shapes)]
+            if v % 2:
                 d["data"] = None
             raw = json.dumps(d).encode()
         elif k == "data_not_object":
